@@ -56,6 +56,9 @@ pub struct Machine {
   pub arms: Vec<Arm>,
   pub start: Vec<Term>,
   pub ill: IllFormed,
+  /// index into NAME_SETS per state (missing = all states use the input names)
+  #[serde(default)]
+  pub names: Vec<usize>,
 }
 
 #[derive(Clone, Debug, Serialize, Deserialize)]
@@ -68,29 +71,31 @@ pub struct Plan { pub machine: Machine, pub invocations: Vec<(Invocation, usize)
 
 const STATE_NAMES: [&str; 6] = ["A", "B", "C", "D", "Ghost", "Orphan"];
 const FIELDS: [&str; 3] = ["n", "a", "b"];
+/// per-state field names: states may bind their payload under other names than their neighbours
+const NAME_SETS: [[&str; 3]; 4] = [["n", "a", "b"], ["p", "q", "r"], ["x", "y", "z"], ["a", "n", "b"]];
 
-fn term_text(t: &Term) -> String {
+fn term_text(t: &Term, f: &[&str; 3]) -> String {
   match t {
-    Term::Field(i) => FIELDS[*i].to_string(),
+    Term::Field(i) => f[*i].to_string(),
     Term::Const(c) => format!("{}u64", c),
-    Term::Add(i, c) => format!("{} + {}u64", FIELDS[*i], c),
-    Term::Sub(i, c) => format!("{} - {}u64", FIELDS[*i], c),
-    Term::AddF(i, j) => format!("{} + {}", FIELDS[*i], FIELDS[*j]),
-    Term::SubF(i, j) => format!("{} - {}", FIELDS[*i], FIELDS[*j]),
+    Term::Add(i, c) => format!("{} + {}u64", f[*i], c),
+    Term::Sub(i, c) => format!("{} - {}u64", f[*i], c),
+    Term::AddF(i, j) => format!("{} + {}", f[*i], f[*j]),
+    Term::SubF(i, j) => format!("{} - {}", f[*i], f[*j]),
   }
 }
 fn cmp_text(c: &Cmp) -> &'static str { match c { Cmp::Gt => ">", Cmp::Lt => "<", Cmp::Eq => "==", Cmp::Ge => ">=", Cmp::Le => "<=", Cmp::Ne => "!=" } }
-fn guard_text(g: &Guard) -> String {
+fn guard_text(g: &Guard, f: &[&str; 3]) -> String {
   match g {
     Guard::Wild => "*".to_string(),
-    Guard::CmpC(i, c, k) => format!("{} {} {}u64", FIELDS[*i], cmp_text(c), k),
-    Guard::CmpF(i, c, j) => format!("{} {} {}", FIELDS[*i], cmp_text(c), FIELDS[*j]),
+    Guard::CmpC(i, c, k) => format!("{} {} {}u64", f[*i], cmp_text(c), k),
+    Guard::CmpF(i, c, j) => format!("{} {} {}", f[*i], cmp_text(c), f[*j]),
   }
 }
-fn target_text(t: &Target) -> String {
+fn target_text(t: &Target, f: &[&str; 3]) -> String {
   match t {
-    Target::State(s, terms) => format!(":{}({})", STATE_NAMES[*s], terms.iter().map(term_text).collect::<Vec<_>>().join(", ")),
-    Target::Done(t) => format!(":Done({})", term_text(t)),
+    Target::State(s, terms) => format!(":{}({})", STATE_NAMES[*s], terms.iter().map(|x| term_text(x, f)).collect::<Vec<_>>().join(", ")),
+    Target::Done(t) => format!(":Done({})", term_text(t, f)),
   }
 }
 
@@ -121,21 +126,22 @@ impl Machine {
     if let Some(a) = &self.array { return render_array(a); }
     let k = self.arity;
     let typed: Vec<String> = (0..k).map(|i| format!("{}<u64>", FIELDS[i])).collect();
-    let plain: Vec<String> = (0..k).map(|i| FIELDS[i].to_string()).collect();
     let mut s = format!("#M({}) => <u64>\n", typed.join(", "));
     let mut declared: Vec<usize> = (0..self.arms.len()).collect();
     if self.ill == IllFormed::TargetDeclaredWithoutArm { declared.push(5); }
     for st in &declared { s.push_str(&format!("  ├ :{}({})\n", STATE_NAMES[*st], typed.join(", "))); }
     s.push_str("  └ :Done(out<u64>).\n\n");
-    s.push_str(&format!("#M({}) -> :A({})\n", typed.join(", "), self.start.iter().map(term_text).collect::<Vec<_>>().join(", ")));
+    s.push_str(&format!("#M({}) -> :A({})\n", typed.join(", "), self.start.iter().map(|x| term_text(x, &FIELDS)).collect::<Vec<_>>().join(", ")));
     for (i, arm) in self.arms.iter().enumerate() {
+      let f: &[&str; 3] = &NAME_SETS[self.names.get(i).copied().unwrap_or(0) % NAME_SETS.len()];
+      let plain: Vec<String> = (0..k).map(|j| f[j].to_string()).collect();
       match arm {
-        Arm::Direct(t) => s.push_str(&format!("  :{}({}) -> {}\n", STATE_NAMES[i], plain.join(", "), target_text(t))),
+        Arm::Direct(t) => s.push_str(&format!("  :{}({}) -> {}\n", STATE_NAMES[i], plain.join(", "), target_text(t, f))),
         Arm::Guarded(gs) => {
           s.push_str(&format!("  :{}({})\n", STATE_NAMES[i], plain.join(", ")));
           for (j, (g, t)) in gs.iter().enumerate() {
             let pre = if j + 1 == gs.len() { "└" } else { "├" };
-            s.push_str(&format!("    {} {} -> {}\n", pre, guard_text(g), target_text(t)));
+            s.push_str(&format!("    {} {} -> {}\n", pre, guard_text(g, f), target_text(t, f)));
           }
         }
       }
@@ -285,7 +291,7 @@ pub fn gen_machine(rng: &mut Rng) -> Machine {
       no_consume: rng.chance(1, 8),
       done_add: *rng.pick(&[0u64, 0, 1, 7]),
     };
-    return Machine { array: Some(a), arity: 1, arms: vec![], start: vec![], ill: IllFormed::None };
+    return Machine { array: Some(a), arity: 1, arms: vec![], start: vec![], ill: IllFormed::None, names: vec![] };
   }
   let k = 1 + rng.usize(3);
   let n_states = 1 + rng.usize(4);
@@ -303,7 +309,8 @@ pub fn gen_machine(rng: &mut Rng) -> Machine {
     }
   }
   let start = (0..k).map(|i| if rng.chance(3, 4) { Term::Field(i) } else { gen_term(rng, k) }).collect();
-  let mut m = Machine { array: None, arity: k, arms, start, ill: IllFormed::None };
+  let names: Vec<usize> = if rng.chance(1, 2) { vec![0; n_states] } else { (0..n_states).map(|_| rng.usize(NAME_SETS.len())).collect() };
+  let mut m = Machine { array: None, arity: k, arms, start, ill: IllFormed::None, names };
   // ill-formed variants
   match rng.below(12) {
     0 => { m.ill = IllFormed::TargetUndeclared; retarget(&mut m, rng, 4); }
